@@ -60,6 +60,18 @@ impl Frame {
     }
 }
 
+/// The plane of a generated outline.  f64 build: `Frame::random` as it is (same draws, same cases).  f32 build (finding F15: the
+/// crate's absolute 1e-7 coplanarity tolerance is below binary32 rounding noise at metre scale, so oblique outlines are refused by
+/// `Loop3D::push`): 75% coordinate planes, 10% exactly diagonal planes, 10% right-angle rotations through the crate's own
+/// Transform, 5% oblique (kept to measure the refusal rate); offsets capped at 8 so that the coordinate noise stays near 1e-6.
+/// (Same rule as `frame_for` of mesh.rs, for the loop / polygon streams C05 C10 C11 C12 C20.)
+#[allow(dead_code)]
+pub fn frame_for(r: &mut Rng, offset: f64) -> Frame {
+    if !cfg!(feature = "float") { return Frame::random(r, offset); }
+    let want: u8 = match r.below(20) { 0..=14 => 0, 15 | 16 => 3, 17 | 18 => 2, _ => 1 };
+    loop { let fr = Frame::random(r, offset.min(8.0)); if fr.kind == want { return fr; } }
+}
+
 pub type P2 = (f64, f64);
 
 /// a simple polygon in 2-D (counter-clockwise), various families; `size` ~ metre scale
@@ -175,6 +187,18 @@ pub fn corners_ok(p: &[P2], min_cross: f64) -> bool {
 }
 /// a rigid motion built from the crate's own constructors: rotations about the three axes by arbitrary angles, then a translation
 pub fn rigid_motion(r: &mut Rng, max_shift: f64) -> Transform {
+    // f32 build: shifts to 8 and, 70% of the time, right angles only (an arbitrary rotation leaves 1e-6 of coplanarity noise at
+    // metre scale, which Loop3D::push refuses: finding F15); the f64 build draws exactly what it always drew
+    #[cfg(feature = "float")]
+    {
+        let ms = max_shift.min(8.0);
+        let mut t = Transform::translate(r.range(-ms, ms) as Float, r.range(-ms, ms) as Float, r.range(-ms, ms) as Float);
+        let right = r.chance(0.7);
+        let mut ang = |r: &mut Rng| if right { *r.pick(&[0.0, 90.0, -90.0, 180.0, 270.0]) as Float } else { r.range(-180.0, 180.0) as Float };
+        t *= Transform::rotate_z(ang(r)); t *= Transform::rotate_y(ang(r)); t *= Transform::rotate_x(ang(r));
+        return t;
+    }
+    #[allow(unreachable_code)]
     let mut t = Transform::translate(r.range(-max_shift, max_shift) as Float, r.range(-max_shift, max_shift) as Float, r.range(-max_shift, max_shift) as Float);
     t *= Transform::rotate_z(r.range(-180.0, 180.0) as Float);
     t *= Transform::rotate_y(r.range(-180.0, 180.0) as Float);
